@@ -48,7 +48,46 @@ def build_simsouffle():
     if r.returncode != 0:
         log(r.stdout[-6000:])
         return None, time.time() - t0
-    return r.stdout.strip().splitlines()[-1], time.time() - t0
+    global SIM_EXE
+    SIM_EXE = r.stdout.strip().splitlines()[-1]
+    return SIM_EXE, time.time() - t0
+
+
+SIM_EXE = None
+
+
+def held_sizes(w, rels):
+    """Number of tuples the relations hold after a sequential run of the program, as reported by .printsize directives appended to
+    the program text (independent of how tuples are rendered to files: a symbol may contain a newline).  None if unavailable."""
+    if SIM_EXE is None:
+        return None
+    if w.origin == "corpus":
+        src, facts, cwd = os.path.join(w.meta["dir"], w.meta["corpus"] + ".dl"), w.meta["facts_dir"], w.meta["dir"]
+    else:
+        if not w.dir or not os.path.isdir(w.dir):
+            w.materialise()
+        src, facts, cwd = os.path.join(w.dir, "p.dl"), os.path.join(w.dir, "facts"), w.dir
+    out = tmpdir("ps")
+    prog = os.path.join(out, "ps.dl")
+    with open(prog, "w") as f:
+        f.write(open(src).read() + "\n" + "".join(".printsize %s\n" % r for r in rels))
+    env = dict(os.environ)
+    env.update({"VERIF_SIM_SEED": "1", "VERIF_SIM_STRATEGY": "seq", "VERIF_SIM_OMP": "1", "VERIF_SIM_FAULTS": "0"})
+    try:
+        p = subprocess.run([SIM_EXE, "--no-preprocessor", "-j1", "-F", facts, "-D", out, prog], stdout=subprocess.PIPE, stderr=subprocess.PIPE,
+                           env=env, timeout=600, cwd=cwd)
+    except subprocess.TimeoutExpired:
+        return None
+    finally:
+        pass
+    sizes = {}
+    if p.returncode == 0:
+        for line in p.stdout.decode(errors="replace").splitlines():
+            parts = line.split("\t")
+            if len(parts) == 2 and parts[0] in rels and parts[1].isdigit():
+                sizes[parts[0]] = int(parts[1])
+    shutil.rmtree(out, ignore_errors=True)
+    return sizes if p.returncode == 0 else None
 
 
 class Workload:
@@ -212,7 +251,8 @@ def diff_outputs(ref_out, got_out, only=None, skip=()):
         if g is None:
             f.append(("output-missing:" + rel, "output relation %s was not written" % rel))
             continue
-        if len(set(g)) != len(g):
+        # a tuple listed twice; a reference whose lines repeat holds symbols with embedded newlines (lines are then not tuples)
+        if len(set(g)) != len(g) and len(set(lines)) == len(lines):
             f.append(("output-duplicate:" + rel, "relation %s lists a tuple twice" % rel))
         if g != lines:
             sg, sl = set(g), set(lines)
